@@ -7,7 +7,9 @@
 //! error naming the item, which the check treats as a broken tie.
 
 mod audit;
+mod connector;
 
+use std::cell::{Cell, RefCell};
 use std::collections::{BTreeMap, BTreeSet};
 use std::fmt::Write as _;
 use std::fs;
@@ -135,6 +137,15 @@ fn ty(t: &Type, this: &str) -> R<String> {
                     }
                     return Err("Option without argument".into());
                 }
+                "Vec" | "Result" => {
+                    if let syn::PathArguments::AngleBracketed(a) = &seg.arguments {
+                        if let (1, Some(syn::GenericArgument::Type(inner))) = (a.args.len(), a.args.first()) {
+                            let head = if name == "Vec" { "List" } else { "Except SvgdxError" };
+                            return Ok(format!("({head} {})", ty(inner, this)?));
+                        }
+                    }
+                    return Err(format!("{name} without a single type argument"));
+                }
                 other => other.into(),
             }
         }
@@ -156,6 +167,33 @@ struct Cx<'a> {
     this: String,
     /// if the fn takes `&mut self` and returns `&Self`, `*self = e; self` denotes `e`
     mut_self: bool,
+    /// the translated code lives in `Except SvgdxError`: `?` is hoisted into an explicit match,
+    /// `Ok(..)`/`Err(..)` are the constructors (connector.rs only)
+    monadic: bool,
+    /// `?` operands collected while translating one strict (branch-free) expression
+    hoists: RefCell<Vec<(String, String)>>,
+    in_plain: Cell<u32>,
+    fresh: Cell<u32>,
+    /// variables initialised with `f32::MAX` (type `Option Rat`, `none` = above every distance)
+    ext_vars: RefCell<BTreeSet<String>>,
+    /// parameters dropped from the signature (element handles, the context): any use is an error
+    forbidden: BTreeSet<String>,
+}
+
+impl<'a> Cx<'a> {
+    fn new(w: &'a World, this: &str, mut_self: bool) -> Self {
+        Cx {
+            w,
+            this: this.to_string(),
+            mut_self,
+            monadic: false,
+            hoists: RefCell::new(vec![]),
+            in_plain: Cell::new(0),
+            fresh: Cell::new(0),
+            ext_vars: RefCell::new(BTreeSet::new()),
+            forbidden: BTreeSet::new(),
+        }
+    }
 }
 
 fn indent(s: &str, n: usize) -> String {
@@ -175,6 +213,10 @@ impl<'a> Cx<'a> {
                     Ok("none".into())
                 } else if one == "self" {
                     Ok("self".into())
+                } else if self.forbidden.contains(one) {
+                    Err(format!("use of `{one}` (a parameter outside the translated subset)"))
+                } else if self.ext_vars.borrow().contains(one) {
+                    Err(format!("`{one}` (initialised with f32::MAX) used outside an order comparison"))
                 } else if one.chars().next().is_some_and(|c| c.is_uppercase()) {
                     let owner = self.w.variant_owner(one)?;
                     Ok(format!("{owner}.{one}"))
@@ -248,8 +290,30 @@ impl<'a> Cx<'a> {
             if cols > 1 {
                 match a {
                     Pat::Tuple(t) if t.elems.len() == cols => {
-                        let parts: R<Vec<_>> = t.elems.iter().map(|e| self.pat(e)).collect();
-                        out.push(parts?.join(", "));
+                        // an or-pattern directly in a column is expanded (cartesian product, first column outermost)
+                        let mut rows: Vec<Vec<String>> = vec![vec![]];
+                        for e in &t.elems {
+                            let e = match e {
+                                Pat::Paren(pp) => &*pp.pat,
+                                o => o,
+                            };
+                            let col: Vec<String> = match e {
+                                Pat::Or(o) => o.cases.iter().map(|c| self.pat(c)).collect::<R<Vec<_>>>()?,
+                                other => vec![self.pat(other)?],
+                            };
+                            let mut next = vec![];
+                            for r in &rows {
+                                for c in &col {
+                                    let mut r2 = r.clone();
+                                    r2.push(c.clone());
+                                    next.push(r2);
+                                }
+                            }
+                            rows = next;
+                        }
+                        for r in rows {
+                            out.push(r.join(", "));
+                        }
                     }
                     Pat::Wild(_) => out.push(vec!["_"; cols].join(", ")),
                     other => {
@@ -346,6 +410,18 @@ impl<'a> Cx<'a> {
         v.0
     }
 
+    fn contains_plain_return(e: &Expr) -> bool {
+        struct V(bool);
+        impl<'ast> syn::visit::Visit<'ast> for V {
+            fn visit_expr_return(&mut self, _: &'ast syn::ExprReturn) {
+                self.0 = true;
+            }
+        }
+        let mut v = V(false);
+        syn::visit::Visit::visit_expr(&mut v, e);
+        v.0
+    }
+
     /// translate a block whose value is passed to continuation `k` (identity for tail position)
     fn block_k(&self, b: &Block, k: &dyn Fn(String) -> R<String>) -> R<String> {
         self.stmts_k(&b.stmts, k)
@@ -424,13 +500,38 @@ impl<'a> Cx<'a> {
                 let v = r.expr.as_ref().ok_or("bare return")?;
                 self.expr(v)
             }
+            Expr::Match(_) | Expr::If(_) | Expr::Block(_) if self.in_plain.get() > 0 && Self::contains_return(e) => Err(format!(
+                "`?` inside a conditional sub-expression of a strict expression: {}",
+                quote::quote!(#e)
+            )),
             Expr::Match(m) => self.expr_match(m, k),
             Expr::If(i) => self.expr_if(i, k),
             Expr::Block(b) => self.block_k(&b.block, k),
             Expr::Paren(p) if Self::contains_return(&p.expr) => self.expr_k(&p.expr, k),
             other => {
                 if Self::contains_return(other) {
-                    return Err(format!("`return`/`?` in unsupported position: {}", quote::quote!(#other)));
+                    if !self.monadic || Self::contains_plain_return(other) {
+                        return Err(format!("`return`/`?` in unsupported position: {}", quote::quote!(#other)));
+                    }
+                    if self.in_plain.get() > 0 {
+                        // inside a strict expression already being collected
+                        return k(self.expr_plain(other)?);
+                    }
+                    // strict expression with `?` operands: bind them first, in evaluation order
+                    let mark = self.hoists.borrow().len();
+                    self.in_plain.set(1);
+                    let v = self.expr_plain(other);
+                    self.in_plain.set(0);
+                    let v = v?;
+                    let hs: Vec<(String, String)> = self.hoists.borrow_mut().split_off(mark);
+                    let mut inner = k(v)?;
+                    for (name, he) in hs.into_iter().rev() {
+                        inner = format!(
+                            "(match {he} with\n  | Except.error e__ =>\n    (Except.error e__)\n  | Except.ok {name} =>\n{})",
+                            indent(&inner, 4)
+                        );
+                    }
+                    return Ok(inner);
                 }
                 k(self.expr_plain(other)?)
             }
@@ -442,6 +543,23 @@ impl<'a> Cx<'a> {
     }
 
     fn method_call(&self, recv: &Expr, name: &str, args: &Punctuated<Expr, syn::Token![,]>) -> R<String> {
+        if (name == "to_owned" || name == "to_string") && args.is_empty() {
+            if let Some(s) = lit_str(recv) {
+                return Ok(char_list(&s));
+            }
+        }
+        if name == "ok_or_else" && self.monadic {
+            // Option -> Result with a thunk: `o.ok_or_else(|| E)`
+            let [Expr::Closure(c)] = args.iter().collect::<Vec<_>>()[..] else {
+                return Err("ok_or_else expects one closure".into());
+            };
+            if !c.inputs.is_empty() || Self::contains_return(&c.body) {
+                return Err("ok_or_else: unsupported closure".into());
+            }
+            let r = self.expr(recv)?;
+            let e = self.expr(&c.body)?;
+            return Ok(format!("(match {r} with | some v__ => (Except.ok v__) | none => (Except.error {e}))"));
+        }
         let r = self.expr(recv)?;
         let a: R<Vec<_>> = args.iter().map(|x| self.expr(x)).collect();
         let a = a?;
@@ -492,6 +610,14 @@ impl<'a> Cx<'a> {
         })
     }
 
+    fn is_ext(&self, e: &Expr) -> Option<String> {
+        match e {
+            Expr::Path(p) => p.path.get_ident().map(|i| i.to_string()).filter(|n| self.ext_vars.borrow().contains(n)),
+            Expr::Paren(p) => self.is_ext(&p.expr),
+            _ => None,
+        }
+    }
+
     fn expr_plain(&self, e: &Expr) -> R<String> {
         Ok(match e {
             Expr::Lit(l) => match &l.lit {
@@ -514,6 +640,43 @@ impl<'a> Cx<'a> {
                     UnOp::Deref(_) => inner,
                     _ => return Err("unsupported unary op".into()),
                 }
+            }
+            Expr::Binary(b) if self.is_ext(&b.left).is_some() || self.is_ext(&b.right).is_some() => {
+                // comparison against a variable that starts at f32::MAX (`none`): every distance is below it
+                let (ext_left, other) = match (self.is_ext(&b.left), self.is_ext(&b.right)) {
+                    (Some(n), None) => (true, (n, self.expr(&b.right)?)),
+                    (None, Some(n)) => (false, (n, self.expr(&b.left)?)),
+                    _ => return Err(format!("unsupported use of f32::MAX variables in {}", quote::quote!(#b))),
+                };
+                let (n, o) = other;
+                let (sym, o_below) = match b.op {
+                    BinOp::Lt(_) => ("<", !ext_left),
+                    BinOp::Le(_) => ("≤", !ext_left),
+                    BinOp::Gt(_) => (">", ext_left),
+                    BinOp::Ge(_) => ("≥", ext_left),
+                    _ => return Err(format!("unsupported use of an f32::MAX variable in {}", quote::quote!(#b))),
+                };
+                let cmp = if ext_left { format!("m__ {sym} {o}") } else { format!("{o} {sym} m__") };
+                format!("(match {n} with | none => {o_below} | some m__ => (decide ({cmp})))")
+            }
+            Expr::Try(t) => {
+                if !self.monadic || self.in_plain.get() == 0 {
+                    return Err(format!("`?` in unsupported position: {}", quote::quote!(#t)));
+                }
+                let inner = self.expr(&t.expr)?;
+                let n = self.fresh.get() + 1;
+                self.fresh.set(n);
+                let name = format!("q{n}__");
+                self.hoists.borrow_mut().push((name.clone(), inner));
+                name
+            }
+            Expr::Macro(m) if m.mac.path.is_ident("vec") => {
+                let elems = m
+                    .mac
+                    .parse_body_with(Punctuated::<Expr, syn::Token![,]>::parse_terminated)
+                    .map_err(|e| format!("vec!: {e}"))?;
+                let parts: R<Vec<_>> = elems.iter().map(|x| self.expr(x)).collect();
+                format!("[{}]", parts?.join(", "))
             }
             Expr::Binary(b) => {
                 let l = self.expr(&b.left)?;
@@ -553,6 +716,8 @@ impl<'a> Cx<'a> {
                 };
                 if p.path.is_ident("Some") {
                     format!("(some {})", args.join(" "))
+                } else if self.monadic && (p.path.is_ident("Ok") || p.path.is_ident("Err")) && args.len() == 1 {
+                    format!("(Except.{} {})", if p.path.is_ident("Ok") { "ok" } else { "error" }, args[0])
                 } else {
                     let f = self.path_expr(&p.path)?;
                     format!("({f} {})", args.join(" "))
@@ -643,7 +808,7 @@ fn trans_fn(w: &World, this: &str, f: &ImplItemFn) -> R<String> {
         ReturnType::Default => "Unit".to_string(),
         ReturnType::Type(_, t) => ty(t, this)?,
     };
-    let cx = Cx { w, this: this.to_string(), mut_self };
+    let cx = Cx::new(w, this, mut_self);
     let body = cx
         .block_k(&f.block, &|v| Ok(v))
         .map_err(|e| format!("{this}::{name}: {e}"))?;
@@ -1708,6 +1873,7 @@ fn main() {
         ("Geometry.lean", gen_geometry as fn(&Path) -> R<String>),
         ("Tables.lean", gen_tables as fn(&Path) -> R<String>),
         ("Audit.lean", audit::gen_audit as fn(&Path) -> R<String>),
+        ("Connector.lean", connector::gen_connector as fn(&Path) -> R<String>),
     ] {
         match gen(src) {
             Ok(text) => match write_if_changed(&out.join(name), &text) {
